@@ -56,7 +56,7 @@ ASSUMPTIONS = ['the MODEL (and K) cover Latin-1 input strings (code points 0..25
                'str.format on str arguments raises only AttributeError, IndexError, KeyError, MemoryError, OverflowError, TypeError or ValueError (the tuple parse_equation catches): '
                'with it the PUnmodelled hole (C13_unmodelled_only_inside_format) cannot hide a foreign exception; exercised by the format-spec corpus and mutations, not proved',
                'not modelled raise sites, unreachable by reading: the two `assert`s (Symbol.combine names equal; FUNCTION symbols equal) and the enum lookup Type[type_key[1:]] in process_term_match',
-               'time: the model has no cost notion; the harness measures CPU time on fifteen scaling families: a first look (n, 2n: exponent > 1.6 with >= 0.1 s) only SUSPECTS a family; a suspect is re-measured in three fresh processes at n, 2n, 4n and flagged only if the exponent from the per-size minima is >= 1.85, every single process gives >= 1.5 and every t(4n) >= 0.5 s — on a faster machine a kept scaling finding may simply not be hit; only check_syntax=False is timed',
+               'time: the property says parse_model TERMINATES; cost is MEASURED AND REPORTED, NOT JUDGED (a slow but terminating parse is no violation, and a timing verdict would depend on machine load): the `scale` cases time fifteen input families (CPU, check_syntax=False; a first look at n, 2n; a suspected family again in three fresh processes at n, 2n, 4n) and put exponent and times into the observation and the evidence buckets; the oracle never fails them — only a persistent watchdog timeout (effectively non-termination) is a failure, through check.py. Three regex sites are super-linear on this machine: equation_re alternative 2 on k lines "(x y=y…=y z" + ")z"*k (exponent ~2.4: 5.4 KB 1.7 s, 21 KB ~50 s); term_re open index part / INVALID alternative on "X[ "*n, "+".join(["X[1"]*n), "if[ "*n (~1.9-2.1: 12 KB ~4 s); dotted names "a" + ".b"*n (~2.0: 6 KB 0.4 s). A fourth (long identifier, ~2.3) was removed by commit 2d62135 (redundant star in the FUNCTION alternative) — a performance repair, not a C13 fix',
                'K is stricter than the property where the property only says "one of the three own errors" (K compares the exact class and every Symbol field, K_lex the group names); '
                'a K-only disagreement is reported as broken correspondence (no-failing-input-found), not as a property violation']
 EXHAUSTIVE = {'quick': True, 'thorough': True}
@@ -576,7 +576,7 @@ SCALE_MAX_EXP = 1.6     # first look: linear is 1, quadratic 2 — only SUSPECTS
 # confirmation of a suspected family: three FRESH processes, each timing sizes n, 2n, 4n (min of 2 after a warm-up).  Flagged only if
 # (i) the exponent n -> 4n computed from the per-size MINIMA over the three processes (the robust estimate of the true cost) is at least
 # SCALE_CONFIRM_EXP, (ii) EVERY single process measures at least SCALE_CONFIRM_EACH, and (iii) every t(4n) >= SCALE_CONFIRM_T.
-# Never on a single measurement; on a machine too fast to reach the floor nothing is flagged (a kept scaling finding is then not hit).
+# The result (`superlinear`, exponents, times) is REPORTED in the observation and the evidence buckets only; the oracle never judges it.
 SCALE_CONFIRM_EXP = 1.85
 SCALE_CONFIRM_EACH = 1.5
 SCALE_CONFIRM_T = 0.5
@@ -996,11 +996,7 @@ def oracle(case, obs):
     if obs.get('timeout'):
         return [{'sig': 'C13|timeout', 'what': 'parse_model / build_model did not return within %d s on %s' % (CASE_TIMEOUT, json.dumps(case)[:120])}]
     if case['k'] == 'scale':
-        if obs.get('superlinear'):
-            return [{'sig': 'C13|scaling|' + case['family'],
-                     'what': 'parse_model terminates, but its CPU time grows at least like size^%.1f on the family %r (confirmed by three fresh processes at sizes n, 2n, 4n: %s)'
-                             % ((obs.get('exponent_x10') or 0) / 10.0, case['family'], obs.get('confirm'))}]
-        return []
+        return []       # INFORMATIONAL ONLY: the property says "terminates"; cost is measured and reported (observation + bucket), never judged
     items = [(case['s'], obs)] if case['k'] == 's' else [(s, o) for s, o in obs.get('anomalies', [])]
     seen = set()
     for s, o in items:
@@ -1028,7 +1024,8 @@ def bucket(case, obs):
     if case['k'] == 'enum':
         return 'enum/len%d' % case['len']
     if case['k'] == 'scale':
-        return 'scale/' + ('superlinear' if obs.get('superlinear') else 'linear')
+        c = obs.get('confirm') or {}
+        return 'scale/%s/%s' % (case['family'], ('super-linear exponent~%.1f' % (c.get('minima_x100', 0) / 100.0)) if obs.get('superlinear') else 'about linear')
     c = obs.get('cs')
     return 'script/' + (c if c != 'ok' else ('accepted/%d-eq' % min(obs.get('emitted', 0), 3)))
 
